@@ -1,11 +1,20 @@
 #!/bin/sh
 # tools/intake.sh <seed-id> [src-dir]: copies an independently written change into seeded/<id>, confirms it
-# (demo passes pristine / fails patched, the FULL repo test suite still passes with the patch) and runs the
-# property's quick check against it.  Used for round 4 (sub-agent output under /tmp/seed4/out).
+# (demo passes pristine / fails patched, the area's unit tests still pass with the patch; FULL=1 runs all of tests/)
+# and runs the property's quick check against it.  Used for round 4 (sub-agent output under /tmp/seed4/out).
 cd "$(dirname "$0")/.." || exit 2
 id="$1"; src="${2:-/tmp/seed4/out/$id}"
 pid=$(echo "$id" | cut -d- -f1)
 mkdir -p "seeded/$id"
 cp "$src/patch.diff" "$src/demo.py" "$src/meta.json" "seeded/$id/" || exit 2
-python3 tools/confirm_seeded.py "$id" -n 6 tests 2>&1 | tail -3
-python3 tools/run_seeded.py "$pid" --only "$id" --jobs "${JOBS:-8}" 2>&1 | tail -5
+case "$id" in
+  C01*|C02*|C03*|C05*|C16*|C17*) tests="tests/unit/number" ;;
+  C04*|C06*|C18*) tests="tests/unit/interpret tests/unit/number" ;;
+  C07*|C08*|C09*|C10*|C19*) tests="tests/unit/transform tests/unit/strategies" ;;
+  C13*|C14*|C15*) tests="tests/unit/analysis" ;;
+  C11*|C12*) tests="tests/unit/backend" ;;
+  C20*) tests="tests/unit/libraries tests/unit/interpret" ;;
+esac
+[ -n "$FULL" ] && tests="tests"
+python3 tools/confirm_seeded.py "$id" -n 4 $tests 2>&1 | tail -3
+[ -n "$NOCHECK" ] || python3 tools/run_seeded.py "$pid" --only "$id" --jobs "${JOBS:-8}" 2>&1 | tail -5
